@@ -17,6 +17,16 @@ abbrev K : NmeaConsts := { maxFragCnt := Generated.MAX_FRAG_CNT, maxPayloadLen :
 abbrev env := Generated.env
 abbrev MAXLEN := Generated.ENCODE_MAX_LEN
 
+/-- the encoder's fragment size keeps every message within nine fragments -/
+theorem maxlen_ok : 20 ≤ MAXLEN := by decide
+
+/-- a table of the source with the shape of a layout has the layout's total width -/
+theorem widthSum_of_shape (fs : List Field) (L : List LField)
+    (h : tableShape C08.E fs = layoutShape L) : widthSum fs = totalWidth L := by
+  have := congrArg (List.map fun p => p.2.1) h
+  simp only [tableShape, layoutShape, List.map_map, Function.comp_def] at this
+  simp only [widthSum, totalWidth, this]
+
 /-- **Round trip of every wire-representable message, through the whole NMEA path.**  Take any
 payload `bits0` of a supported layout `cls` (its own type and discriminator bits select `cls`), on a
 field boundary, in which no field is normalised by decoding, and let `m` be the decoded message —
@@ -32,7 +42,70 @@ theorem C02_roundtrip_wire (cls : String) (L : List LField) (fs : List Field)
     ∃ kv sents, seqDecode env bits0 0 fs = .ok kv ∧
       encodeMsg env MAXLEN { cls := cls, fields := kv } talker chan = .ok sents ∧
       decodeArgs K env false sents = .ok { cls := cls, fields := kv } := by
-  sorry
+  -- the table has the layout's shape, hence its width
+  have hshape : tableShape C08.E fs = layoutShape L := by
+    have h := List.all_eq_true.mp C01.tables_match_layouts (cls, L) hL
+    simp only at h
+    rw [hfs] at h
+    exact eq_of_beq h
+  have hw : widthSum fs = totalWidth L := widthSum_of_shape fs L hshape
+  have hb : OnBoundary fs bits0.length :=
+    Or.inl ⟨fs.length, Nat.le_refl _, by rw [List.take_length, hlen, hw]⟩
+  obtain ⟨kv, hdec, henc⟩ := C08.C08_bit_exact cls fs hfs bits0 hb hpad hex hr
+  -- lengths
+  have hfin := List.all_eq_true.mp C01.layouts_len_fin (cls, L) hL
+  simp only [Bool.and_eq_true, decide_eq_true_eq, Bool.or_eq_true, Bool.not_eq_true',
+    Bool.or_eq_false_iff, beq_eq_false_iff_ne] at hfin
+  obtain ⟨h72, h22⟩ := hfin
+  have hdom := List.all_eq_true.mp C09.C09_domain (cls, fs) (lookup_mem _ _ _ hfs)
+  simp only [decide_eq_true_eq] at hdom
+  have hle : bits0.length ≤ 6 * 9 * MAXLEN := by
+    have := maxlen_ok
+    have h2 : bits0.length ≤ 1064 := by rw [hlen, ← hw]; exact hdom
+    omega
+  have hne : bits0 ≠ [] := by
+    intro h0; rw [h0] at hlen; simp at hlen; omega
+  -- the encoder
+  have hmsg : msgToBits env { cls := cls, fields := kv } = .ok bits0 := by
+    unfold msgToBits
+    have : env.classes.lookup cls = some fs := hfs
+    simp only [this]
+    exact henc
+  have hlt : talker.length = 5 := C09.talker_length talker ht
+  have hlc : chan.length = 1 := C09.chan_length chan hc
+  have hout : ∃ out, aisToNmea MAXLEN (encodeAscii6 bits0).1 talker chan (encodeAscii6 bits0).2 = .ok out := by
+    unfold aisToNmea
+    simp only [hlt, hlc, ne_eq, not_true_eq_false, if_false]
+    exact ⟨_, rfl⟩
+  obtain ⟨out, hout⟩ := hout
+  have hencm : encodeMsg env MAXLEN { cls := cls, fields := kv } talker chan = .ok out := by
+    unfold encodeMsg
+    simp only [ht, hc, not_true_eq_false, if_false, hmsg, bind, Except.bind]
+    exact hout
+  obtain ⟨s, hs, hsbits, hpay, _, hid⟩ := C09.C09_accepted bits0 talker chan ht hc hne hle out hout
+  refine ⟨kv, out, hdec, hencm, ?_⟩
+  -- the decoder
+  have hnotempty : s.payload.isEmpty = false := by
+    rw [hpay]
+    have := (encodeAscii6_chars bits0).2
+    cases hp : (encodeAscii6 bits0).1 with
+    | nil => rw [hp] at this; simp at this; omega
+    | cons _ _ => rfl
+  have hselect := C01.C01_select bits0 (by omega) (fun _ => by omega) (fun h => by
+    rcases h22 with h22 | h22
+    · rcases C01.select_22 bits0 cls h hsel with hc | hc
+      · exact absurd hc h22.1
+      · exact absurd hc h22.2
+    · omega)
+  have hdb : decodeBits env bits0 = .ok { cls := cls, fields := kv } := by
+    rw [C01.decodeBits_eq, hselect, hsel]
+    have : Generated.env.classes.lookup cls = some fs := hfs
+    simp only [bind, Except.bind, this, hdec]
+  unfold decodeArgs
+  rw [hs]
+  simp only [bind, Except.bind, decodeSentence, hnotempty, Bool.false_eq_true, if_false, hid, hsbits]
+  unfold decodeBits at hdb
+  exact hdb
 
 /-- **Both entry points**: `encode_dict` (type given as `type` or as `msg_type`) is `create`
 followed by `encode_msg`. -/
@@ -103,12 +176,13 @@ theorem C02_finding_type26_short_data :
 
 /-- non-vacuity: the hypotheses of `C02_roundtrip_wire` are satisfiable (an all-zero type-1 payload
 apart from the type bits) -/
-example : select (ofNat 6 1 ++ ofNat 162 0) = .ok "MessageType1" ∧
+example : (match select (ofNat 6 1 ++ ofNat 162 0) with
+      | .ok c => c == "MessageType1"
+      | .error _ => false) = true ∧
     (ofNat 6 1 ++ ofNat 162 0).length = totalWidth L_MessageType1 := by
-  constructor
-  · decide +kernel
-  · decide +kernel
+  decide +kernel
 
+#print axioms maxlen_ok
 #print axioms C02_roundtrip_wire
 #print axioms C02_encode_dict
 #print axioms C02_create
